@@ -81,6 +81,7 @@ fn main() {
         | "fuzz-frontend" => frontend::fuzz_frontend(&args[2], &args[3], &args[4], args[5].parse().unwrap(), args[6].parse().unwrap()),
         | "vocab-classes" => frontend::print_vocab(),
         | "replay-exists" => exists::replay_exists(&args[2], &args[3]),
+        | "render-coverage" => coverage::render_coverage(&args[2], &args[3], args[4].parse().unwrap()),
         | "replay-poly" => poly::replay_poly(&args[2], &args[3]),
         | "snapshot-first-lookup" => conc::snapshot_first_lookup(),
         | "fmt-dump" => fmtcheck::fmt_dump(&args[2]),
